@@ -82,7 +82,7 @@ def sh(cmd, cwd=None, env=None, timeout=None, stdin=None):
 
 
 class Check:
-    def __init__(self, pid, argv):
+    def __init__(self, pid, argv, work_suffix=""):
         self.pid = pid
         self.t0 = time.time()
         self.tier = os.environ.get("VERIF_TIER", "quick")
@@ -111,12 +111,13 @@ class Check:
                     self.tier, self.seed = m.group(1), int(m.group(2))
             except OSError:
                 pass
-        self.work = os.path.join(VERIF, ".work", "%s-%d" % (pid, os.getpid()))
+        self.work = os.path.join(VERIF, ".work", "%s-%d%s" % (pid, os.getpid(), work_suffix))
         shutil.rmtree(self.work, ignore_errors=True)
         os.makedirs(self.work)
         self.replay_dir = os.path.join(VERIF, "replay", pid)
         os.makedirs(self.replay_dir, exist_ok=True)
         self.violations = []      # (replay_path, suffix)
+        self.violation_kind = {}  # replay_path -> clause | "unwitnessed"
         self.clause_counts = {}
         self.known_printed = []
         self.obligations = 0
@@ -286,11 +287,38 @@ class Check:
             return
         path = self.write_replay(clause, replay_lines, header=("clause " + clause, text) + tuple(header))
         self.violations.append((path, ""))
+        self.violation_kind[path] = clause
 
     def fail_unwitnessed(self, what, replay_lines=()):
         """a theorem or correspondence no longer checks and no failing input was found"""
         path = self.write_replay("unwitnessed", list(replay_lines), header=("no longer checks: " + what,))
         self.violations.append((path, " no-failing-input-found"))
+        self.violation_kind[path] = "unwitnessed"
+
+    def kinds(self):
+        """what this run would report: the clauses with a failing input, 'unwitnessed' for a broken proof, tie or tool"""
+        k = set(self.violation_kind.get(p, "unwitnessed") for p, _ in self.violations)
+        if self.broken:
+            k.add("unwitnessed")
+        return k
+
+    def confirm(self, other):
+        """keep what a second complete run (same tier, same seed) reports again under the same clause.  Timing-dependent
+        harnesses (watchdogs, settle windows, whole-broker waits) can misfire once on an overloaded machine; a real
+        violation, deterministic or racy, shows again.  What is dropped is printed and recorded in the evidence."""
+        again = other.kinds()
+        kept, dropped = [], []
+        for v in self.violations:
+            (kept if self.violation_kind.get(v[0], "unwitnessed") in again else dropped).append(v)
+        if self.broken and "unwitnessed" not in again:
+            dropped.append(("broken: " + "; ".join(self.broken)[:300], ""))
+            self.broken = []
+        self.violations = kept
+        if dropped:
+            self.extra["not_reproduced_by_confirmation_run"] = [
+                {"clause": self.violation_kind.get(p, "unwitnessed"), "replay": p} for p, _ in dropped]
+            for p, _ in dropped:
+                print("NOTE: not reproduced by the confirmation run, not reported: clause=%s %s" % (self.violation_kind.get(p, "unwitnessed"), p))
 
     def finish(self, level_note_assumptions=()):
         # known findings: print each listed one that was reproduced on this run
